@@ -20,7 +20,8 @@ import OpenFGAVerif.Proofs.ValidationMain
 import OpenFGAVerif.Gen.Validation
 
 namespace OpenFGAVerif.C18
-open OpenFGAVerif.Model.TupleStr OpenFGAVerif.Spec.TupleStr OpenFGAVerif.Proofs.TupleStr
+open OpenFGAVerif.Model.TupleStr (Bytes cColon cHash cAt cStar cSpace wildcard runes isControl indexByte lastIndexByte splitObject buildObject getType splitObjectRelation getRelation toObjectRelationString getObjectRelationAsString toUserParts isValidObject isValidRelation isValidUserID isValidUserset isValidUser isObjectRelation isTypedWildcard isWildcard typedPublicWildcard)
+open OpenFGAVerif.Spec.TupleStr OpenFGAVerif.Proofs.TupleStr
 open OpenFGAVerif.Model.Validation OpenFGAVerif.Spec.Allowed OpenFGAVerif.Proofs.Validation
 open OpenFGAVerif.Model.Condition (Ctx Std TypeRef TypeName)
 
